@@ -392,7 +392,7 @@ class Extractor:
 
     def block(self, stmts):
         items = []
-        for s in stmts:
+        for si, s in enumerate(stmts):
             if isinstance(s, ast.For):
                 # iteration over the handle itself
                 if norm(s.iter) in self.rh:
@@ -423,6 +423,11 @@ class Extractor:
                 b, o = self.block(s.body), self.block(s.orelse)
                 pre = [Line(c, target="if", parse=self.parse_form(s.test, c)) for c in self.readline_calls(s.test)]
                 items += pre
+                if b and not s.orelse and _always_jumps(s.body) and stmts[si + 1:]:
+                    # `if c: <I/O>; break|return|continue|raise` followed by the rest of the block is the same
+                    # control flow as `if c: ... else: <rest>`
+                    items.append(Cond(s, norm(s.test), b, self.block(stmts[si + 1:])))
+                    return items
                 if b or o:
                     items.append(Cond(s, norm(s.test), b, o))
             elif isinstance(s, ast.With):
@@ -455,6 +460,15 @@ class Extractor:
             else:
                 items += self.stmt_items(s)
         return items
+
+
+def _always_jumps(stmts):
+    for s in stmts:
+        if isinstance(s, (ast.Break, ast.Continue, ast.Return, ast.Raise)):
+            return True
+        if isinstance(s, ast.If) and s.orelse and _always_jumps(s.body) and _always_jumps(s.orelse):
+            return True
+    return False
 
 
 def reader_grammar(prog, fi, handles=(), inline=True):
